@@ -720,8 +720,8 @@ func c09R6(r *Run, pf, mf *c09fn) {
 					if len(fs) == 1 && fs[0] == wantForm {
 						if rw.want == "plain" {
 							nPlainRows++
-						} else if any(reach, mark) {
-							nElemRows++
+						} else {
+							nElemRows++ // (that the selector is marked served in this iteration is the row's own demand)
 						}
 					} else {
 						opndOK = false
@@ -748,7 +748,7 @@ func c09R6(r *Run, pf, mf *c09fn) {
 					ok = ok && any(reach, unmark) == (rw.first == "F")
 				}
 				r.Check(key, ok, r.Where(ftis[0]),
-					c09RowText(rw.want, rw.ptr, dec)+fmt.Sprintf(": expected %s; pointer-only operations on the field run=%v coded(once, in the form of the row)=%v [%d coding calls run] continues=%v returns=%d setnil=%v alloc=%v marked=%v reset=%v", rw.want, any(reach, ptrOps), coded, len(ran), cont, len(rets), any(reach, zero), any(reach, alloc), any(reach, mark), any(reach, unmark)))
+					c09RowText(rw.want, rw.known, rw.ptr, rw.choice, rw.seen, rw.nilptr, dec)+fmt.Sprintf(": expected %s; pointer-only operations on the field run=%v coded(once, in the form of the row)=%v [%d coding calls run] continues=%v returns=%d setnil=%v alloc=%v marked=%v reset=%v", rw.want, any(reach, ptrOps), coded, len(ran), cont, len(rets), any(reach, zero), any(reach, alloc), any(reach, mark), any(reach, unmark)))
 			})
 			if err != nil {
 				r.Fail(key, r.FnPos(fn), "undecided: "+err.Error())
@@ -769,7 +769,7 @@ func c09R6(r *Run, pf, mf *c09fn) {
 		case len(opndBad) > 0:
 			detail += ": " + strings.Join(opndBad, "; ")
 		case !okDst:
-			detail += fmt.Sprintf(": undecided: %d rows coding a plain field and %d rows coding a chosen variant were evaluated (at least one each expected)", nPlainRows, nElemRows)
+			detail += fmt.Sprintf(": exactly one coding call runs in %d of the rows that call for a plain field and in %d of the rows that call for a chosen variant (at least one each expected; see the rows)", nPlainRows, nElemRows)
 		}
 		r.Check(kp+"coded-operand", okDst, r.Where(rec), detail)
 		if dec {
